@@ -358,7 +358,7 @@ def run(tier: str, seed: int, replay=None) -> int:
     R.rule = ("scenario = (architecture, method in {PIT, SuperNet, MPS}, mode found, fold_bn, autoconvert). Sources: (1) the "
               "(architecture, configuration) pairs of the Conv transitions of ImportLifeMC (grammar: conv / depthwise / linear with "
               "bias on/off, BatchNorm on/off, user-placed PIT layer, excluded layer, layer reuse, SuperNet blocks, relu, pooling, "
-              "flatten, residual add, one/two-input forward; <= 2 operator nodes; " + ("stratified sample of 380 of them" if quick else "all of them")
+              "flatten, residual add, one/two-input forward; <= 2 operator nodes; " + ("stratified sample of 600 of them" if quick else "all of them")
               + "); (2) seeded random architectures of the same grammar with up to ~12 nodes, widths 2..6, kernels 1..5, strides, "
               "dilations, BatchNorm eps/momentum variants; (3) hand-written shapes of the repository's test models. "
               "Non-trivial = the converter has something to fuse, fold, adopt or select (BatchNorm after a layer, user-placed "
@@ -409,11 +409,11 @@ def run(tier: str, seed: int, replay=None) -> int:
     raws = _dump_scenarios(path, scen.distinct)
     os.unlink(path)
     R.extra["tlc_scenarios_enumerated"] = len(raws)
-    picked = _stratified(raws, 380 if quick else 0, rng)      # thorough: every enumerated scenario is built for real
+    picked = _stratified(raws, 600 if quick else 0, rng)      # thorough: every enumerated scenario is built for real
     scs = [_materialize(r, rng) for r in picked]
     R.extra["tlc_scenarios_executed"] = len(scs)
     # ---------------------------------------------------------------- code -> spec: random scenarios beyond the bounds
-    rs = [random_scenario(rng) for _ in range(240 if quick else 3000)]
+    rs = [random_scenario(rng) for _ in range(350 if quick else 3000)]
     R.extra["random_scenarios"] = len(rs)
     _execute_and_validate(R, fixed_scenarios() + scs + rs, "fixed + tlc-enumerated + random")
 
